@@ -383,9 +383,81 @@ def c03_math_functions():
     return out
 
 
+def c03_e_hash():
+    """utils._e on a HASH("...") operand: for every name and every CRC value the number used for
+    folding must be the signed 32-bit reading (what the chip uses for HASH)."""
+    import sys
+
+    from . import e3
+
+    ob = Ob()
+    findings = []
+    ob.functions.add("utils._e (HASH operand) -> types.compute_hash -> utils.calc_hash")
+    u = E.load_instrumented("utils")
+    t = E.load_instrumented("types")
+    v = z3.BitVec("crc", 64)
+    name_chars = [z3.Int(f"hn{i}") for i in range(3)]
+    seen = {}
+
+    class _Z:
+        @staticmethod
+        def crc32(b):
+            seen["b"] = b
+            return E.SInt(v)
+
+    def fn():
+        saved = {k: sys.modules.get(k) for k in ("zlib", "stationeers_pytrapic.types")}
+        sys.modules["zlib"] = _Z
+        sys.modules["stationeers_pytrapic.types"] = t
+        try:
+            for ch in name_chars:
+                E.ctx().assume(z3.Or(*[ch == a for a in (ord("a"), ord("B"), ord("2"), 0x20)]))
+            E.ctx().assume(z3.And(v >= 0, v < 2**32))
+            operand = e3.SymStr.of('HASH("') + e3.SymStr(name_chars) + e3.SymStr.of('")')
+            return u._e(operand), seen.get("b")
+        finally:
+            for k, m in saved.items():
+                if m is None:
+                    sys.modules.pop(k, None)
+                else:
+                    sys.modules[k] = m
+
+    paths, c = E.explore(fn)
+    ob.paths += len(paths)
+    want = from_long(z3.If(v >= 2**31, v - 2**32, v))
+    for pc, out, asserts in paths:
+        if out[0] == "gap":
+            ob.gaps += 1
+            findings.append(dict(op="_e(HASH)", typing="str", kind="inconclusive", detail=out[1]))
+            continue
+        if out[0] == "raise":
+            findings.append(dict(op="_e(HASH)", typing="str", kind="fold_raises", detail=f"{type(out[1]).__name__}: {out[1]}"))
+            continue
+        res, arg = out[1]
+        d = denote(res)
+        goal = z3.BoolVal(True) if d is None else z3.Not(z3.fpEQ(d, want))
+        hashed_ok = isinstance(arg, e3.SymStr) and len(arg.c) == len(name_chars) and all(a is b for a, b in zip(arg.c, name_chars))
+        r, m = ob.check(asserts + [goal])
+        if r == "sat" or not hashed_ok:
+            # replay on the real function with names of both hash signs
+            from stationeers_pytrapic import utils as real_utils
+
+            from .ic10 import hash_signed
+
+            for nm in ("abcd", "abc", "O2", "CO2", "a B", "StructureGasSensor"):
+                got = real_utils._e(f'HASH("{nm}")')
+                if float(got) != float(hash_signed(nm)):
+                    findings.append(dict(op="_e(HASH)", typing="str", kind="fold_differs", inputs=[f'HASH("{nm}")'], fold=repr(got), chip=float(hash_signed(nm)), opcode="(operand value)"))
+                    break
+    return ob, findings
+
+
 def c03_one_operator(args):
     """Worker: obligations of one table entry (binary or unary operator)."""
     kind, op = args
+    if kind == "e_hash":
+        full_ob, findings = c03_e_hash()
+        return full_ob.as_dict(), findings, full_ob.samples
     full_ob, findings = _c03_ops([op] if kind == "bin" else [], [op] if kind == "un" else [])
     return full_ob.as_dict(), findings, full_ob.samples
 
